@@ -469,16 +469,21 @@ theorem askPrice_refused_iff_cannot_cover_flat {price : Coin} {flat : Option Coi
     · have := (hiff.1 hok).2.1; omega
     · exact herr
 
-/-- Outside the guards: the price check panics exactly when the product `price·fee` of the
-applicable seller ratio needs more than 256 bits (then no ask at that price can be created). -/
-theorem askPrice_panics_of_overflow {rs : List Ratio} {price : Coin} {flat : Option Coin}
-    (hrw : RatiosWf rs) {r : Ratio} (hr : r ∈ rs) (hpd : r.pd = price.1) (hfd : r.fd = price.1)
-    (hbig : fits256 (price.2 * r.fa) = false) :
-    validateAskPrice rs price flat = .error .overflow := by
+/-- Outside the guards: when the applicable seller ratio fee itself needs more than 256 bits the
+price check rejects the ask as an ordinary error (since the repair of `applyLooselyTo`; before it
+the check panicked as soon as the product `price·fee` needed more than 256 bits). -/
+theorem askPrice_rejects_when_fee_unrepresentable {rs : List Ratio} {price : Coin} {flat : Option Coin}
+    (hrw : RatiosWf rs) (hp : 0 ≤ price.2) {r : Ratio} (hr : r ∈ rs) (hpd : r.pd = price.1)
+    (hfd : r.fd = price.1) (hbig : fits256 (ceilDiv (price.2 * r.fa) r.pa) = false) :
+    validateAskPrice rs price flat = .error .price := by
   unfold validateAskPrice getSellerSettlementRatio
   have := getFeeRatio_of_mem hrw.1 hr
   rw [hpd, hfd] at this
-  simp only [this, applyToLoosely_overflow hpd (hrw.2 r hr).1 hbig]
+  obtain ⟨e, he⟩ := (C19.applyLoosely_fails_iff hp (hrw.2 r hr).2 (hrw.2 r hr).1).mpr hbig
+  have h0 : r.pa ≠ 0 := by have := (hrw.2 r hr).1; omega
+  have hne : Fees.applyLooselyTo price.2 r.pa r.fa = .error .invalid := by
+    rw [he, C19.applyLoosely_error_invalid h0 he]
+  simp only [this, applyToLoosely, hpd, ne_eq, not_true_eq_false, if_false, hne]
 
 /-! ### Required attributes -/
 
